@@ -533,3 +533,59 @@ def check_C12(tier: str, seed: int) -> int:
                      "a vehicle without any membership is offered to every fleet (implementation behaviour relied upon by tests/test_local_simulation_runner.py; the resulting "
                      "pairings with fleet requests are known finding F6 under C10)"]
     return v.finish()
+
+
+ROUTER_BUDGET = {"quick": 320, "thorough": 16000}
+
+_ROUTER_RULE = ("function-level: generated strongly connected street graphs (3-12 junctions, a directed ring plus reverse sides and random chords, no parallel links; speeds from one "
+                "value to {5,10,30,60,130} km/h; lengths 1-1.7 x the straight-line distance, or arbitrary in 30% of the graphs; three spatial scales) built into the real "
+                "OSMRoadNetwork; 6-14 position pairs per graph: random link interiors, the same link with the destination ahead / behind / on the same cell, opposite directions of "
+                "one street, adjacent links, link ends, and positions snapped from random nearby cells by position_from_geoid; networkx.astar_path observed; Lean rebuilds each "
+                "route from the observed junction path with the model of route_from_nx_path + resolve_route_src_dst_positions and compares it, evaluates validRoute on the "
+                "implementation's route, and accepts the junction path only if certPath passes with the potentials of the harness's exact Dijkstra; plus 8 snapping probes and 4 "
+                "straight-line-network queries per graph; evaluations = queries and probes; distinct_nontrivial = distinct (query kind, path length, route length, mixed speeds) tuples")
+
+
+def router_check(prop: str, tier: str, seed: int, assumptions: List[str]) -> int:
+    v = fw.Verdict(prop, tier, seed, "proof")
+    ps = fw.ProofStatus(prop, [f"Properties.{prop}"])
+    rl = layers.router_layer(seed, ROUTER_BUDGET[tier])
+    ok1 = use_simple_layer(v, prop, rl, "router", [prop])
+    if (not ps.ok or not ok1) and not v.violations:
+        big = layers.router_layer(seed + 7919, ROUTER_BUDGET[tier] * 6)
+        use_simple_layer(v, prop, big, "router", [prop])
+        v.notes.append(f"escalated search: {big['cases']} further graphs")
+    if not ps.ok:
+        v.broken(f"proof obligation for {prop}: {ps.failing_obligation()}", {"theorem_or_build": ps.failing_obligation()})
+    cov = fw.proof_coverage(ps)
+    cov["evaluations"] = rl["steps"]
+    cov["distinct_nontrivial"] = len(rl["shapes"])
+    cov["rule"] = _ROUTER_RULE
+    cov["samples"] = [rl["sample"]]
+    cov["graphs"] = rl["cases"]
+    cov["links"] = rl["rows"]
+    cov["trusted_base"] = cov["trusted_base"] + [
+        "networkx.astar_path is NOT modelled and NOT trusted: its answer is a parameter of the route model and is accepted as fastest only with node potentials checked by the "
+        "Lean function Hive.Router.certPath (soundness: Hive.C14.cert_fastest); the potentials come from an untrusted exact Dijkstra in the harness",
+        "h3.h3_line (the cells of a link) and the KD-tree nearest-link lookup are geometry oracles; snapping is checked against h3_line by the harness",
+        "the shipped Denver graph cannot be loaded by the installed networkx (KeyError 'edges'); generated graphs only"]
+    v.coverage = cov
+    v.assumptions = assumptions
+    return v.finish()
+
+
+@register("C13")
+def check_C13(tier: str, seed: int) -> int:
+    return router_check("C13", tier, seed, [
+        "street networks: the theorem osm_route assumes the graph search returns a junction walk from the end of the origin link to the start of the destination link "
+        "(checked on every run: the model route built from the observed path must equal the implementation's route, and validRoute must hold of it)",
+        "the link table agrees with the junction cells (Consistent), as OSMRoadNetworkLinkHelper builds it",
+        "node ids are non-negative integers (a negative id breaks the 'u-v' link id format; not generated)"])
+
+
+@register("C14")
+def check_C14(tier: str, seed: int) -> int:
+    return router_check("C14", tier, seed, [
+        "translation validation: cert_fastest is about accepted paths; that every path of the implementation is accepted is observed on the runs of this check",
+        "slack = 1e-9 x (fastest time + 1 s) absorbs the rounding of float sums inside networkx",
+        "no parallel links between one ordered junction pair (the link table keeps one link per pair)"])
